@@ -11,6 +11,7 @@ CONSTANTS
   AttachGuard = TRUE
   SaveGuard = TRUE
   ObjSeq <- Seq3a
+  HandMode = FALSE
   Bias = FALSE
   Quiet = TRUE
 INIT Init
